@@ -208,6 +208,17 @@ def generate(tier, rng):
     for v in (0, 1, 255) if quick else range(0, 256, 5):
         yield nxt(lua_program(rng, 300), 'versions', version=v)
         yield nxt(comment(hi_bytes(rng, 20)), 'versions', version=v)
+    # .p8 -> .p8.png -> .p8 chains (observed; the .p8 codec itself belongs to C03)
+    import glob
+    for f in sorted(glob.glob(os.path.join(lib.REPO, 'tests', 'testdata', '*.p8'))):
+        c = nxt(b'', 'chain-testdata')
+        c['chain'] = os.path.basename(f)
+        yield c
+    for n, u in ((0, False), (1, False), (40, False), (300, True), (2000, False), (6000, True)) if quick else \
+            [(rng.choice([0, 1, 2, 30, 200, 1000, 5000, 14000]), rng.random() < 0.3) for _ in range(60)]:
+        c = nxt(lua_program(rng, n, update60=u), 'chain')
+        c['chain'] = 'generated'
+        yield c
     if not quick:
         for i in range(450):
             n = rng.choice([0, 1, 2, 5, 30, 100, 400, 1500, 4000, 12000])
@@ -291,6 +302,8 @@ def run_impl(case):
         except Exception as e:  # noqa  (the generator should only produce code picotool parses)
             obs['bad_lua'] = lib.exc_name(e)
             return obs
+        if case.get('chain'):
+            return _run_chain(case, g, d, obs)
         written = b''.join(g.lua.to_lines())
         obs['text'] = lib.hx(written)
         fn = os.path.join(d, 'cart.p8.png')
@@ -340,9 +353,39 @@ def run_impl(case):
         shutil.rmtree(d, ignore_errors=True)
 
 
+def _cart_of(g):
+    return [lib.hx(bytes(s._data)) for s in (g.gfx, g.map, g.gff, g.music, g.sfx)] + \
+        [lib.hx(b''.join(g.lua.to_lines())), g.version]
+
+
+def _run_chain(case, g, d, obs):
+    """cart -> a.p8 -> read -> b.p8.png -> read -> c.p8 -> read; compares the first and the last reading"""
+    from pico8.game import file as gfile
+    a, b, c = (os.path.join(d, n) for n in ('a.p8', 'b.p8.png', 'c.p8'))
+    try:
+        if case['chain'] != 'generated':
+            shutil.copy(os.path.join(lib.REPO, 'tests', 'testdata', case['chain']), a)
+        else:
+            gfile.to_file(g, a)
+        g1 = gfile.from_file(a)
+        obs['chain_first'] = _cart_of(g1)
+    except Exception as e:  # noqa   (a .p8 problem: not this property's mechanism)
+        obs['chain_p8_error'] = lib.exc_name(e)
+        return obs
+    try:
+        gfile.to_file(g1, b)
+        g2 = gfile.from_file(b)
+        gfile.to_file(g2, c)
+        g3 = gfile.from_file(c)
+        obs['chain_last'] = _cart_of(g3)
+    except Exception as e:  # noqa
+        obs['chain_last'] = 'ERR ' + lib.exc_name(e)
+    return obs
+
+
 # ----------------------------------------------------------------------------- model (correspondence)
 def model_requests(case, obs):
-    if obs.get('timeout') or 'bad_lua' in obs:
+    if obs.get('timeout') or 'bad_lua' in obs or case.get('chain'):
         return []
     reqs = ['write %s %s %d 4 %s' % (' '.join(obs['regs']), obs['text'], case['version'], obs['label'])]
     if obs['raised'] is None and obs['out'] != '-':
@@ -353,7 +396,7 @@ def model_requests(case, obs):
 def compare(case, obs, answers):
     if obs.get('timeout'):
         return 'implementation timed out'
-    if 'bad_lua' in obs:
+    if 'bad_lua' in obs or case.get('chain'):
         return None
     if obs['raised'] is not None:
         exp = 'ERR ' + obs['raised']
@@ -384,6 +427,13 @@ def compare(case, obs, answers):
 def monitor_requests(case, obs):
     if obs.get('timeout') or 'bad_lua' in obs:
         return []
+    if case.get('chain'):
+        if 'chain_first' not in obs:
+            return []
+        first = ' '.join(str(x) for x in obs['chain_first'])
+        if isinstance(obs['chain_last'], str):
+            return ['readback-' + obs['chain_last'].replace(' ', '-')]
+        return ['readback %s %s' % (first, ' '.join(str(x) for x in obs['chain_last']))]
     cart = '%s %s %d' % (' '.join(obs['regs']), obs['text'], case['version'])
     if obs['raised'] is not None:
         return ['refused ' + obs['text'], 'flag %d' % (1 if obs.get('dest_intact') else 0)]
@@ -397,6 +447,8 @@ def monitor_requests(case, obs):
 
 
 def signature(case, obs):
+    if case.get('chain'):
+        return 'C04/chain/%s' % case['chain']
     if obs.get('raised') is not None:
         if not obs.get('dest_intact', True):
             return 'C04/refused/destination-modified'
@@ -433,6 +485,8 @@ def histogram_key(case, obs):
     k = case.get('tag', 'cart').split('+')[0].split('-limit')[0]
     if obs.get('bad_lua'):
         return 'not-a-lua-program'
+    if case.get('chain'):
+        return k + ('/p8-error' if 'chain_p8_error' in obs else '')
     if obs.get('raised'):
         return k + '/refused'
     return k + ('/existing-destination' if case['dest'] != 'none' else '/no-destination')
